@@ -325,6 +325,75 @@ func TestC06(t *testing.T) {
 		}
 		gen.Exhaustive("boundary grid: every verdict-relevant bound x governing time x {-1s, at, +1s}, other artifacts decades away, five distinct times; separate and shared certificate shapes", true)
 	})
+	// (1b) pairs: one artifact about to expire (still valid: 1 s, 1 h or 23 h left at its governing times) together
+	// with another one that has expired (by 1 s or by a month): whatever is said or done about the first, the
+	// second decides. Every ordered pair of artifacts.
+	gen.Direct(t, "near-expiry-and-expired-pairs", func(t *testing.T) {
+		lefts := []time.Duration{time.Hour}
+		if gen.Tier() == "thorough" {
+			lefts = []time.Duration{time.Second, time.Hour, 23 * time.Hour}
+		}
+		s := gen.NewStream(gen.ProcSeed()*137, "c06pairs")
+		idx := 0
+		for _, shared := range []bool{false, true} {
+			js := c06Separate
+			if shared {
+				js = c06Shared
+			}
+			names := []string{}
+			seen := map[string]bool{}
+			for _, j := range js {
+				if !seen[j.name] {
+					seen[j.name] = true
+					names = append(names, j.name)
+				}
+			}
+			for _, x := range names {
+				for _, y := range names {
+					if x == y {
+						continue
+					}
+					for _, left := range lefts {
+						idx++
+						if !gen.ShardOwns(idx) {
+							continue
+						}
+						c := c06Fresh(distinctTimes(s), shared)
+						// x: valid at all its governing times, the latest of which is `left` before its end
+						var latest, earliest time.Time
+						for _, j := range js {
+							if j.name == x && (latest.IsZero() || c.times[j.ti].After(latest)) {
+								latest = c.times[j.ti]
+							}
+							if j.name == y && (earliest.IsZero() || c.times[j.ti].Before(earliest)) {
+								earliest = c.times[j.ti]
+							}
+						}
+						wx := c.win[x]
+						wx.NotAfter = latest.Add(left)
+						c.win[x] = wx
+						wy := c.win[y]
+						ago := time.Second
+						if idx%2 == 0 {
+							ago = 30 * 24 * time.Hour
+						}
+						wy.NotAfter = earliest.Add(-ago)
+						c.win[y] = wy
+						desc := fmt.Sprintf("%s has %v left, %s expired %v ago (shared certificates=%v)", x, left, y, ago, shared)
+						gen.NonTrivial(desc)
+						gen.Class("near-expiry-and-expired-pair")
+						if idx%29 == 0 {
+							gen.Sample("pairs", desc)
+						}
+						if !c06Check(t, c, s, fmt.Sprintf("p%d", idx%7), desc, levels) {
+							return
+						}
+					}
+				}
+			}
+		}
+		gen.Exhaustive("every ordered pair (artifact about to expire, artifact expired), separate and shared certificate shapes", true)
+	})
 	// (2) random assignments: several artifacts near / past their bounds at once.
 	gen.Prop(t, "random-windows", gen.N(700, 60000), func(t *rapid.T) {
 		s := gen.NewStream(rapid.Uint64().Draw(t, "content"), "c06r")
